@@ -47,7 +47,10 @@ def typedOp (img : Option Img) (fam : String) (a : List String) : Option String 
       match v.dervaChk (mk x) (tySize t) (tyAlign t) with
       | .ok r => if isStructTy t then s!"ok {ref r}" else s!"ok {ref r} val={leN v.b r.off (tySize t)}"
       | o => refOut o)
-  | "_copy", [k, t, x] => some (withView img k fun v => natOut (v.dervaCopyChk (mk x) (tySize t)))
+  | "_copy", [k, t, x] => some (withView img k fun v =>
+      -- a composite type (size > alignment) is copied as its `size_of` bytes: `slice(rva, size_of, 1)` + `read_unaligned`,
+      -- which is what `derva_into` of that many bytes copies
+      if isStructTy t then bytesOut (v.dervaIntoChk (mk x) (tySize t)) else natOut (v.dervaCopyChk (mk x) (tySize t)))
   | "_into", [k, len, x] => some (withView img k fun v => bytesOut (v.dervaIntoChk (mk x) (num len)))
   | "_slice", [k, t, x, len] => some (withView img k fun v => refOut (v.dervaSliceChk (mk x) (tySize t) (tyAlign t) (num len)))
   | "_slice_s", [k, t, x, s] => some (withView img k fun v => refOut (v.dervaSliceSChk (mk x) (tySize t) (tySize t) (num s)))
